@@ -406,4 +406,7 @@ def run(ctx, report):
     # "any bytes after the record are rejected" includes bytes smuggled inside an enlarged list: the pair loop ends only on an empty payload
     from rules import c02
     c02._own_run(ctx, Only(report, {"LOOP": "LOOP", "SKEL": "SKEL"}))
+    # "parsing it returns an equal record": the parser reads back the public key the record was signed under
+    from rules import c01
+    c01.pubkey_rule(ctx, Only(report, {"PUBKEY": "PUBKEY"}))
 
